@@ -361,6 +361,14 @@ func (c *Context) Quo(d, x, y *Decimal) (Condition, error) {
 					adjExp10--
 				}
 			}
+		} else {
+			// Subnormal: setExponent rounds the coefficient to Etiny. Append
+			// a sticky digit for the non-zero remainder so that this rounding
+			// sees the whole discarded part of the exact quotient.
+			d.Coeff.Mul(&d.Coeff, bigTen)
+			d.Coeff.Add(&d.Coeff, bigOne)
+			adjExp10++
+			nd++
 		}
 	}
 
